@@ -199,9 +199,12 @@ PROPS = {
                     "next -> cond, the body tail goes back to cond, lowering continues in exit; comot/next edges target the enclosing loop's exit/condition.  "
                     "SUMMARIES (Verus, unit summary_step: the body of summarize_component's callee loop and the real ExprClass::join): absorbing a "
                     "callee puts everything it may transitively call / read / write through captures into the caller's sets, never drops anything, "
-                    "reports growth, raises the caller's running class to at least the callee's TRANSITIVE class, and aborts on an unavailable callee."),
+                    "reports growth, raises the caller's running class to at least the callee's TRANSITIVE class, and aborts on an unavailable callee.  "
+                    "MAX REFERENCE (unit max_reference, the callee arm of compute_max_local_reference_stmt with its three noting loops cut out as "
+                    "opaque calls): a call statement is noted as a possible reference of the function's locals in BOTH the callee's transitive "
+                    "capture reads and its transitive capture writes, and of every local of the function when no summary is available."),
         "not_covered": ("soundness of the dataflow itself with respect to execution: liveness fix-point, compute_block_facts, summary "
-                        "propagation to a fixpoint (summarize_component's outer loops; one absorption step is decided), CFG lowering of the other statements and scope kills, compute_max_local_reference_stmt and "
+                        "propagation to a fixpoint (summarize_component's outer loops; one absorption step is decided), CFG lowering of the other statements and scope kills, the statement-level loops of compute_max_local_reference_stmt and "
                         "build_optimization_plan's loops (arena-resident tables do not terminate in CBMC). Two genuine liveness defects "
                         "found by a seeding sub-agent on the unmodified tree are outside these contracts (DESIGN.md section 6)."),
         "trusted_base": [KANI_TRUST, VERUS_TRUST, OS_TRUST],
